@@ -4,7 +4,10 @@ set -e
 cd "$(dirname "$0")"
 export CARGO_NET_OFFLINE=true
 mkdir -p .cache evidence replays
-( cd coq && coq_makefile -f _CoqProject -o Makefile.coq && timeout 3000 make -f Makefile.coq -j16 )
+python3 tools/gen_constants.py /repo
+# -k: a proof obligation that no longer checks (e.g. a constant of /repo that changed) is reported by the check of the
+# property it belongs to, not by the set-up
+( cd coq && coq_makefile -f _CoqProject -o Makefile.coq && (timeout 3000 make -f Makefile.coq -j16 -k || echo 'setup: some Coq targets did not build; the checks will report them') )
 python3 - <<'PY'
 import sys
 sys.path.insert(0, 'tools')
